@@ -72,6 +72,8 @@ func runC18(c *core.Ctx) {
 	runR189(c)
 	runR1810(c)
 	runR1811(c)
+	runR1813(c)
+	runR1814(c)
 
 	// ---- R18.2
 	lockKey := "T:" + core.Mod + "/metrics.hist.lock*"
